@@ -72,16 +72,20 @@ pub assume_specification<T, U, F: FnOnce(T) -> U>[ Option::<T>::map_or ](o: Opti
     requires o matches Some(v) ==> call_requires(f, (v,)),
     ensures o is None ==> r == d, o matches Some(v) ==> call_ensures(f, (v,), r);
 // TRUSTED: core::slice::windows doc: "Returns an iterator over all contiguous windows of length size. The windows overlap. If the slice is
-// shorter than size, the iterator returns no values. Panics if size is zero."  (`win_from(s, n, k, r)`: r = the windows from window k on)
+// shorter than size, the iterator returns no values. Panics if size is zero."  `win_rem`: the windows not yet handed out (rule R6 loop)
 #[verifier::external_type_specification] #[verifier::external_body] #[verifier::reject_recursive_types(T)]
 pub struct ExWindows<'a, T: 'a>(Windows<'a, T>);
-pub open spec fn win_from<T>(s: Seq<T>, n: int, k: int, r: Seq<&[T]>) -> bool {
-    r.len() == (if s.len() >= n { s.len() - n + 1 } else { 0 }) - k
-    && forall|i: int| 0 <= i < r.len() ==> (#[trigger] r[i])@ == s.subrange(k + i, k + i + n)
+pub uninterp spec fn win_rem<T>(w: Windows<'_, T>) -> Seq<Seq<T>>;
+pub open spec fn all_windows<T>(s: Seq<T>, n: int) -> Seq<Seq<T>> {
+    Seq::new((if s.len() >= n { s.len() - n + 1 } else { 0 }) as nat, |i: int| s.subrange(i, i + n))
 }
 pub assume_specification<'a, T>[ <[T]>::windows ](s: &'a [T], n: usize) -> (r: Windows<'a, T>)
     requires n != 0,
-    ensures r.obeys_prophetic_iter_laws(), r.decrease() is Some, win_from(s@, n as int, 0, r.remaining());
+    ensures win_rem(r) == all_windows(s@, n as int);
+pub assume_specification<'a, T>[ <Windows<'a, T> as Iterator>::next ](w: &mut Windows<'a, T>) -> (r: Option<&'a [T]>)
+    ensures
+        win_rem(*old(w)).len() == 0 ==> r is None && win_rem(*final(w)) == win_rem(*old(w)),
+        win_rem(*old(w)).len() > 0 ==> r is Some && r->Some_0@ == win_rem(*old(w))[0] && win_rem(*final(w)) == win_rem(*old(w)).skip(1);
 // TRUSTED: `for x in &mut vec` is `vec.iter_mut()` (impl IntoIterator for &mut Vec): yields a mutable reference to every element in order;
 // same shape as vstd's specification of <[T]>::iter_mut (current values = old vector, final values = final vector)
 pub assume_specification<'a, T, A: std::alloc::Allocator>[ <&'a mut Vec<T, A> as IntoIterator>::into_iter ](v: &'a mut Vec<T, A>) -> (r: <&'a mut Vec<T, A> as IntoIterator>::IntoIter)
@@ -284,6 +288,33 @@ pub open spec fn decode(rg: Seq<u8>, c: Ctx) -> Option<(Tok, int)> {
         else if b == 0x3D { if d.len() >= 14 && le16(d) < c.sheets.len() { Some((Tok::Operand(c.sheets[le16(d)] + seq!['!'] + "#REF!"@), 15)) } else { None } }  // PtgAreaErr3d
         else { None }
     }
+}
+
+/// number of bytes of the token at the head of rg (ptg byte included), from the token layouts of [MS-XLSB] 2.5.97 the code walks:
+/// what an arm reads or skips.  rgce is a sequence of WHOLE tokens: `rg.len() >= tok_size(rg)` is the format's own well-formedness,
+/// which parse_formula never checks (C06 finding: every read of a truncated token panics).
+pub open spec fn tok_size(rg: Seq<u8>) -> int {
+    let p = rg[0] as int;
+    let b = ptg_base(p);
+    if p >= 0x80 { 1 }
+    else if p == 0x01 { 5 }                                                         // PtgExp: row (4)
+    else if p == 0x17 { if rg.len() >= 3 { 3 + 2 * le16(rg.skip(1)) } else { 3 } } // PtgStr: cch (2), rgch
+    else if p == 0x18 { if rg.len() >= 2 { if rg[1] == 0x19 { 14 } else if rg[1] == 0x1D { 6 } else { 2 } } else { 2 } }   // PtgExtend: etpg, PtgList (12) / PtgSxName (4)
+    else if p == 0x19 { if rg.len() >= 2 { if rg[1] == 0x04 { 12 } else { 4 } } else { 2 } }     // PtgAttr*: flags (1), data (2); the code skips 10 for PtgAttrChoose
+    else if p == 0x1C || p == 0x1D { 2 }                                            // PtgErr, PtgBool
+    else if p == 0x1E { 3 }                                                         // PtgInt
+    else if p == 0x1F { 9 }                                                         // PtgNum
+    else if b == 0x20 { 15 }                                                        // PtgArray: 14 unused bytes
+    else if b == 0x21 { 3 }                                                         // PtgFunc: iftab (2)
+    else if b == 0x22 { 4 }                                                         // PtgFuncVar: cparams (1), tab (2)
+    else if b == 0x23 { 5 }                                                         // PtgName: nameindex (4)
+    else if b == 0x24 || b == 0x2A { 7 }                                            // PtgRef, PtgRefErr: RgceLoc (6)
+    else if b == 0x25 || b == 0x2B { 13 }                                           // PtgArea, PtgAreaErr: RgceArea (12)
+    else if b == 0x29 { if rg.len() >= 3 { 3 + le16(rg.skip(1)) } else { 3 } }      // PtgMemFunc: cce (2), sub-expression
+    else if b == 0x39 { 7 }                                                         // PtgNameX: ixti (2), nameindex (4)
+    else if b == 0x3A || b == 0x3C { 9 }                                            // PtgRef3d, PtgRefErr3d: ixti (2), RgceLoc (6)
+    else if b == 0x3B || b == 0x3D { 15 }                                           // PtgArea3d, PtgAreaErr3d: ixti (2), RgceArea (12)
+    else { 1 }
 }
 /// arguments in order, separated by commas
 pub open spec fn join(a: Seq<Seq<char>>) -> Seq<char> decreases a.len() {
@@ -573,6 +604,9 @@ verus! {
             assert(f_in.take(f_in.len() as int) =~= f_in);
             if st_in.len() > 0 { lemma_sb_at(f_in, st_in, st_in.len() - 1); }
         }
+//@@ after /let ptg = rgce\[0\];/
+        //# C06.token_not_truncated
+        assert(rg_in.len() >= tok_size(rg_in));
 //@@ before /let mut args = stack\.split_off/
                     proof { lemma_sb_at(f_in, st_in, args_start as int); }
 //@@ before /for s in &mut args/
@@ -589,6 +623,7 @@ verus! {
                     proof { assert(forall|i: int| 0 <= i < a0.len() ==> args@[i] == #[trigger] a0[i] - start); }
 //@@ before /for w in args\.windows/
                     let ghost fa = fargs@;
+                    let ghost mut wi: int = 0;
                     proof {
                         assert(fa == f_in.skip(k0));
                         assert forall|i: int| 0 <= i < args@.len() implies is_bnd(fa, #[trigger] args@[i] as int) by {
@@ -605,13 +640,23 @@ verus! {
                             else if i < a0.len() { assert(a0[i] == st_in[args_start + i]); lemma_bnd_shift(f_in, start as int, a0[i] as int); lemma_bnd_idx(fa, a0[i] - start); }
                         }
                     }
-//@@ loop 2 it2
+//@@ r6 2
+//@@ loop 2
                         invariant
-                            win_from(args@, 2, 0, it2.seq()),
+                            0 <= wi <= args@.len() - 1,
+                            win_rem(__it2) =~= all_windows(args@, 2).skip(wi),
                             forall|i: int| 0 <= i < args@.len() ==> is_bnd(fa, #[trigger] args@[i] as int),
                             forall|i: int, j: int| 0 <= i <= j < args@.len() ==> args@[i] <= args@[j],
                             fargs@ == fa,
                             formula@.len() > k0 && formula@.take(k0) == f_in.take(k0),
+                        decreases win_rem(__it2).len(),
+//@@ before /formula\.push_str\(&fargs\[/
+                        proof {
+                            assert(w@ == all_windows(args@, 2)[wi]);
+                            assert(w@ =~= args@.subrange(wi, wi + 2));
+                            assert(w@[0] == args@[wi] && w@[1] == args@[wi + 1]);
+                            wi = wi + 1;
+                        }
 //@@ before /\}\s*if stack\.len\(\) == 1/
         proof {
             // (S)
